@@ -159,3 +159,81 @@ fn c18_sk_roundtrip() {
     std::mem::forget(s);
     std::mem::forget(k);
 }
+
+
+// ------------------------------------------------------------------------------------------------------------------ C18
+// The first-party wrappers `Signature::{new, verify, verify_batch}` over the IDEAL primitive (kani/shims/ed25519-dalek:
+// a signature is signer-key || message; 32-byte strings ending in 0xFF are "not curve points"). What is decided is the
+// wrapper logic - which bytes are signed, which key/digest each member is checked against, that no member is skipped -
+// not ed25519 itself.
+fn any_pk() -> PublicKey {
+    PublicKey(vwit::any_bytes::<32>())
+}
+fn any_sig() -> Signature {
+    Signature { part1: vwit::any_bytes::<32>(), part2: vwit::any_bytes::<32>() }
+}
+/// batch verification accepts exactly when every member verifies individually (K members, everything symbolic: keys incl.
+/// unparsable ones, signatures valid / over another digest / by another key, any position).
+fn batch_equiv<const K: usize>() {
+    let d = Digest(vwit::any_bytes::<32>());
+    let mut votes: Vec<(PublicKey, Signature)> = Vec::new();
+    let mut all_ok = true;
+    let mut i = 0;
+    while i < K {
+        let (k, s) = (any_pk(), any_sig());
+        let one = s.verify(&d, &k);
+        all_ok = all_ok && one.is_ok();
+        std::mem::forget(one);
+        votes.push((k, s));
+        i += 1;
+    }
+    let r = Signature::verify_batch(&d, &votes);
+    assert!(r.is_ok() == all_ok, "C18 batch verification disagrees with individual verification");
+    vwit::cover!(K == 0 || r.is_ok());
+    vwit::cover!(K == 0 || r.is_err());
+    std::mem::forget((r, votes));
+}
+macro_rules! batch_h {
+    ($name:ident, $k:expr) => {
+        #[kani::proof]
+        #[kani::unwind(70)]
+        #[kani::stub(std::fmt::format, stub_format)]
+        fn $name() {
+            batch_equiv::<$k>()
+        }
+    };
+}
+batch_h!(c18_batch_equiv_k0, 0);
+batch_h!(c18_batch_equiv_k1, 1);
+batch_h!(c18_batch_equiv_k3, 3);
+
+/// A signature made with a secret key verifies under the matching public key for the signed digest, and fails for any
+/// other digest and under any other key (ideal primitive; the wrapper must pass the right bytes in the right order).
+#[kani::proof]
+#[kani::unwind(70)]
+#[kani::stub(std::fmt::format, stub_format)]
+fn c18_sign_verify_ideal() {
+    let seed: [u8; 32] = vwit::any_bytes::<32>();
+    let pk = any_pk();
+    vwit::assume(pk.0[31] != 0xFF); // honestly generated key
+    let mut skb = [0u8; 64];
+    let mut i = 0;
+    while i < 32 {
+        skb[i] = seed[i];
+        skb[32 + i] = pk.0[i];
+        i += 1;
+    }
+    let sk = SecretKey(skb);
+    let d = Digest(vwit::any_bytes::<32>());
+    let s = Signature::new(&d, &sk);
+    let ok = s.verify(&d, &pk);
+    assert!(ok.is_ok(), "C18 honest signature does not verify");
+    let d2 = Digest(vwit::any_bytes::<32>());
+    let pk2 = any_pk();
+    let r2 = s.verify(&d2, &pk);
+    let r3 = s.verify(&d, &pk2);
+    assert!(r2.is_ok() == (d2.0 == d.0), "C18 signature verifies for another digest");
+    assert!(r3.is_ok() == (pk2.0 == pk.0), "C18 signature verifies under another key");
+    vwit::cover!(r2.is_err() && r3.is_err());
+    std::mem::forget((ok, r2, r3));
+}
